@@ -11,7 +11,7 @@ import tempfile
 from . import build
 
 SHM = "/dev/shm" if os.path.isdir("/dev/shm") else tempfile.gettempdir()
-SCRATCH_ROOT = os.path.join(SHM, "mscript-verif")
+SCRATCH_ROOT = os.path.join(SHM, "mscript-verif", f"run-{os.getpid()}")   # per check process (workers are forked)
 TIMEOUT = 10.0
 
 _ANSI = re.compile(r"\x1b\[[0-9;]*m")
